@@ -63,6 +63,8 @@ type rw struct {
 	file     *ast.File
 	needVrt  bool
 	storage  bool
+	maps     bool // insert the tracked-map hooks (vrt.MapIterBegin/Step/End, vrt.MapWrite)
+	mapCnt   int
 	base     string
 	fn       string
 	pointCnt int
@@ -76,6 +78,7 @@ func rewrite(path string) error {
 	}
 	r := &rw{fset: fset, file: f, base: filepath.Base(path)}
 	r.storage = f.Name.Name == "storage"
+	r.maps = f.Name.Name == "routing" || r.base == "extension_block_prophet.go" || r.base == "extension_block_dtlsr.go"
 
 	// imports
 	for _, imp := range f.Imports {
@@ -148,6 +151,14 @@ func (r *rw) stmts(list []ast.Stmt) []ast.Stmt {
 		if r.storage && containsCall(s) && pointable(s) {
 			out = append(out, r.point())
 		}
+		if r.maps {
+			if pre, post, ok := r.mapHooks(s); ok {
+				out = append(out, pre...)
+				out = append(out, s)
+				out = append(out, post...)
+				continue
+			}
+		}
 		out = append(out, s)
 		// Store configuration: the memtable arena badger allocates (and zeroes) on every Open is 64 MiB by
 		// default, which dominates the cost of creating the thousands of fresh stores the explorer needs.
@@ -164,6 +175,11 @@ func (r *rw) stmts(list []ast.Stmt) []ast.Stmt {
 						Lhs: []ast.Expr{&ast.SelectorExpr{X: se.X, Sel: ast.NewIdent("ValueLogFileSize")}},
 						Tok: token.ASSIGN,
 						Rhs: []ast.Expr{&ast.BasicLit{Kind: token.INT, Value: "1 << 21"}},
+					}, &ast.AssignStmt{
+						// and no level-0 compaction (a second table build) on every Close
+						Lhs: []ast.Expr{&ast.SelectorExpr{X: se.X, Sel: ast.NewIdent("CompactL0OnClose")}},
+						Tok: token.ASSIGN,
+						Rhs: []ast.Expr{ast.NewIdent("false")},
 					})
 				}
 			}
@@ -363,4 +379,129 @@ func (r *rw) goStmt(g *ast.GoStmt) ast.Stmt {
 		}},
 	}}
 	return &ast.BlockStmt{List: append(pre, wrapped)}
+}
+
+// ---------------------------------------------------------------------------
+// tracked-map hooks
+
+func simpleExpr(e ast.Expr) bool {
+	switch x := e.(type) {
+	case *ast.Ident:
+		return true
+	case *ast.SelectorExpr:
+		return simpleExpr(x.X)
+	case *ast.StarExpr:
+		return simpleExpr(x.X)
+	case *ast.ParenExpr:
+		return simpleExpr(x.X)
+	}
+	return false
+}
+
+func vrtCall(fn string, args ...ast.Expr) *ast.CallExpr {
+	return &ast.CallExpr{Fun: &ast.SelectorExpr{X: ast.NewIdent("vrt"), Sel: ast.NewIdent(fn)}, Args: args}
+}
+
+// hasLabeledBranch reports whether the block contains goto or a labelled break/continue (outside function literals).
+func hasLabeledBranch(b *ast.BlockStmt) bool {
+	found := false
+	ast.Inspect(b, func(n ast.Node) bool {
+		switch x := n.(type) {
+		case *ast.FuncLit:
+			return false
+		case *ast.BranchStmt:
+			if x.Label != nil || x.Tok == token.GOTO {
+				found = true
+			}
+		}
+		return true
+	})
+	return found
+}
+
+// beforeReturns inserts mk() before every return statement of the list (recursively, not into function literals).
+func beforeReturns(list []ast.Stmt, mk func() ast.Stmt) []ast.Stmt {
+	var out []ast.Stmt
+	for _, s := range list {
+		switch x := s.(type) {
+		case *ast.ReturnStmt:
+			out = append(out, mk())
+		case *ast.BlockStmt:
+			x.List = beforeReturns(x.List, mk)
+		case *ast.IfStmt:
+			for cur := x; cur != nil; {
+				cur.Body.List = beforeReturns(cur.Body.List, mk)
+				switch e := cur.Else.(type) {
+				case *ast.IfStmt:
+					cur = e
+				case *ast.BlockStmt:
+					e.List = beforeReturns(e.List, mk)
+					cur = nil
+				default:
+					cur = nil
+				}
+			}
+		case *ast.ForStmt:
+			x.Body.List = beforeReturns(x.Body.List, mk)
+		case *ast.RangeStmt:
+			x.Body.List = beforeReturns(x.Body.List, mk)
+		case *ast.SwitchStmt:
+			x.Body.List = beforeReturns(x.Body.List, mk)
+		case *ast.TypeSwitchStmt:
+			x.Body.List = beforeReturns(x.Body.List, mk)
+		case *ast.SelectStmt:
+			x.Body.List = beforeReturns(x.Body.List, mk)
+		case *ast.CaseClause:
+			x.Body = beforeReturns(x.Body, mk)
+		case *ast.CommClause:
+			x.Body = beforeReturns(x.Body, mk)
+		case *ast.LabeledStmt:
+			tmp := beforeReturns([]ast.Stmt{x.Stmt}, mk)
+			if len(tmp) == 1 {
+				x.Stmt = tmp[0]
+			}
+		}
+		out = append(out, s)
+	}
+	return out
+}
+
+// mapHooks returns the statements to put before and after s.
+func (r *rw) mapHooks(s ast.Stmt) (pre, post []ast.Stmt, ok bool) {
+	switch x := s.(type) {
+	case *ast.RangeStmt:
+		if !simpleExpr(x.X) || hasLabeledBranch(x.Body) {
+			return nil, nil, false
+		}
+		r.needVrt = true
+		r.mapCnt++
+		id := fmt.Sprintf("_vm%d", r.mapCnt)
+		pre = []ast.Stmt{&ast.AssignStmt{Lhs: []ast.Expr{ast.NewIdent(id)}, Tok: token.DEFINE, Rhs: []ast.Expr{vrtCall("MapIterBegin", x.X)}}}
+		end := func() ast.Stmt { return &ast.ExprStmt{X: vrtCall("MapIterEnd", ast.NewIdent(id))} }
+		x.Body.List = beforeReturns(x.Body.List, end)
+		x.Body.List = append([]ast.Stmt{&ast.ExprStmt{X: vrtCall("MapIterStep", ast.NewIdent(id))}}, x.Body.List...)
+		post = []ast.Stmt{end()}
+		return pre, post, true
+	case *ast.AssignStmt:
+		for _, l := range x.Lhs {
+			if ix, isIx := l.(*ast.IndexExpr); isIx && simpleExpr(ix.X) {
+				r.needVrt = true
+				pre = append(pre, &ast.ExprStmt{X: vrtCall("MapWrite", ix.X)})
+			}
+		}
+		return pre, nil, len(pre) > 0
+	case *ast.IncDecStmt:
+		if ix, isIx := x.X.(*ast.IndexExpr); isIx && simpleExpr(ix.X) {
+			r.needVrt = true
+			return []ast.Stmt{&ast.ExprStmt{X: vrtCall("MapWrite", ix.X)}}, nil, true
+		}
+	case *ast.ExprStmt:
+		if c, isCall := x.X.(*ast.CallExpr); isCall && len(c.Args) == 2 {
+			if f, isId := c.Fun.(*ast.Ident); isId && f.Name == "delete" && simpleExpr(c.Args[0]) {
+				r.needVrt = true
+				return []ast.Stmt{&ast.ExprStmt{X: vrtCall("MapWrite", c.Args[0])}}, nil, true
+			}
+		}
+	}
+	return nil, nil, false
 }
